@@ -15,9 +15,11 @@ import (
 	"github.com/streamingfast/bstream/forkable"
 	pbbstream "github.com/streamingfast/bstream/pb/sf/bstream/v1"
 	bsstream "github.com/streamingfast/bstream/stream"
+	pbsubstreamstest "github.com/streamingfast/substreams/pb/sf/substreams/v1/test"
 	"github.com/streamingfast/substreams/pipeline"
 	"github.com/streamingfast/substreams/service"
 	"go.uber.org/zap"
+	"google.golang.org/protobuf/proto"
 	"google.golang.org/protobuf/types/known/anypb"
 	"google.golang.org/protobuf/types/known/timestamppb"
 )
@@ -41,7 +43,7 @@ func (b *CBlock) PB() *pbbstream.Block {
 		ParentNum: parentNum(b.Num),
 		Timestamp: timestamppb.New(chainEpoch.Add(time.Duration(b.Num) * time.Second)),
 		LibNum:    b.Lib,
-		Payload:   &anypb.Any{TypeUrl: "type.googleapis.com/" + BlockType, Value: []byte("blk|" + b.ID)},
+		Payload:   &anypb.Any{TypeUrl: "type.googleapis.com/" + BlockType, Value: blockPayload(b)},
 	}
 }
 
@@ -292,4 +294,13 @@ func (s *simStream) runFork(ctx context.Context) error {
 		}
 	}
 	return io.ErrUnexpectedEOF
+}
+
+// blockPayload is a real sf.substreams.v1.test.Block so that compiled test packages can decode it.
+func blockPayload(b *CBlock) []byte {
+	out, err := proto.Marshal(&pbsubstreamstest.Block{Id: b.ID, Number: b.Num})
+	if err != nil {
+		panic(err)
+	}
+	return out
 }
